@@ -160,6 +160,8 @@ type RelayGen struct {
 	NextPort int
 	// Delay is slept inside each generator call (virtual time) - a yield point.
 	Delay time.Duration
+	// DelayKind is slept inside generator calls of one kind ("udp", "listener", "conn") only.
+	DelayKind map[string]time.Duration
 	// CloseNoticeDelay: relay UDP sockets report their own Close to a blocked reader this late.
 	CloseNoticeDelay time.Duration
 }
@@ -174,7 +176,7 @@ func (g *RelayGen) pre(kind string) error {
 	if fail {
 		g.FailNext[kind]--
 	}
-	d := g.Delay
+	d := g.Delay + g.DelayKind[kind]
 	g.mu.Unlock()
 	if d > 0 {
 		time.Sleep(d)
@@ -270,6 +272,16 @@ func (g *RelayGen) Resources() []*Resource {
 	defer g.mu.Unlock()
 
 	return append([]*Resource{}, g.Res...)
+}
+
+// SetDelayKind makes generator calls of one kind slow.
+func (g *RelayGen) SetDelayKind(kind string, d time.Duration) {
+	g.mu.Lock()
+	if g.DelayKind == nil {
+		g.DelayKind = map[string]time.Duration{}
+	}
+	g.DelayKind[kind] = d
+	g.mu.Unlock()
 }
 
 // CallCount returns the number of generator calls of a kind.
